@@ -933,13 +933,14 @@ func help2names(c *Ctx, fn *ssa.Function) {
 			return false, false
 		}
 		skey := fmt.Sprintf("%s:result[short=%v,long=%v]", key, sc.s, sc.l)
-		_, last, ok := walkPath(exit, nil, []*ssa.BasicBlock{hdr}, leaf)
+		rpath, last, ok := walkPath(exit, nil, []*ssa.BasicBlock{hdr}, leaf)
 		ret, isRet := last.(*ssa.Return)
 		if !ok || !isRet {
 			c.Undecided(skey, fn.Pos(), "cannot evaluate the result for this case")
 			continue
 		}
-		result := ret.Results[0]
+		// a result variable: the value it has on this way through the function
+		result := resolveAlong(ret.Results[0], rpath)
 		ms, ml := mentionsValue(result, k.short, 0), mentionsValue(result, k.long, 0)
 		if cs, isC := ir.ConstString(result); isC {
 			c.Check(cs == "" && !sc.s && !sc.l, skey, fn.Pos(), "empty", "a constant is returned although a name exists")
